@@ -10,6 +10,8 @@ import Driver.Persist
 import Driver.QParser
 import Driver.Query
 import Driver.Reads
+import Driver.Score
+import Driver.SetOps
 import Driver.Text
 import Driver.Widcode
 open Driver
@@ -26,6 +28,9 @@ def sessions : List (String × Sess) := [
   ("qparser", QParserS.sess),
   ("query", QueryS.sess),
   ("reads", ReadsS.sess),
+  ("score", ScoreS.sess),
+  ("setops", SetOpsS.sess),
+  ("setopsnbest", SetOpsS.sessNBest),
   ("text", TextS.sess),
   ("widcode", WidcodeS.sess)
 ]
